@@ -322,11 +322,70 @@ class G(GA.G):
             cur = self.add(k=rng.choice(['dropout', 'identity']), src=cur)
         return cur
 
+    def sq_last(self, cur):
+        """(N,C,H,W) -> (N,C,H,1) -> squeeze -> (N,C,H)   /   (N,C,T) -> unsqueeze(3) -> squeeze(3) -> (N,C,T):
+        a squeeze of a trailing size-one axis (a Flatten calculator with multiplier 1) over a spatial size > 1"""
+        rng = self.rng
+        if len(self.sh(cur)) == 3:
+            cur = self.add(k='gapw', src=cur)
+        else:
+            cur = self.add(k='unsqueeze', src=cur, dim=3, form=rng.choice(['fn', 'method']))
+        return self.add(k='squeeze', src=cur, dim=3, form=rng.choice(['fn', 'method']))
+
+    def nested(self, cur):
+        """heads whose input-features calculator NESTS calculators (Flatten of Flatten, Flatten of Concat of Flatten,
+        squeeze on a cat, ...), with spatial sizes > 1; result is a (N, F) tensor"""
+        rng = self.rng
+        kind = rng.choice(['squeeze-flatten', 'cat-of-squeezed-flatten', 'squeeze-on-cat', 'flatten-unsqueeze-flatten',
+                           'cat-of-flatten-flatten', 'squeeze-conv1d-squeeze-flatten'])
+        self.prod.append('head:nested:' + kind)
+        if kind == 'squeeze-flatten':
+            cur = self.flat(self.sq_last(cur))
+        elif kind == 'cat-of-squeezed-flatten':
+            a = self.sq_last(cur)
+            b = self.sq_last(self.act(self.same_shape_conv(cur)))
+            cur = self.add(k='cat', src=[a, b] if rng.random() < 0.5 else [b, a], dim=1)
+            cur = self.flat(cur)
+        elif kind == 'squeeze-on-cat':
+            b = self.act(self.same_shape_conv(cur))
+            c = self.add(k='cat', src=[cur, b] if rng.random() < 0.5 else [b, cur], dim=1)
+            cur = self.sq_last(c)
+            if rng.random() < 0.5:
+                dim0, self.dim = self.dim, 1
+                cur = self.act(self.conv(cur, stride_ok=False, k=rng.choice([1, 2])))
+                self.dim = dim0
+            cur = self.flat(cur)
+        elif kind == 'flatten-unsqueeze-flatten':
+            cur = self.flat(cur)
+            cur = self.add(k='unsqueeze', src=cur, dim=2, form=rng.choice(['fn', 'method']))
+            if rng.random() < 0.5:
+                f = self.sh(cur)[0]
+                cur = self.add(k='conv1d', src=cur, cin=f, cout=rng.randint(2, 5), ks=1, dil=1, stride=1, groups=1, bias=True)
+            cur = self.flat(cur)
+        elif kind == 'cat-of-flatten-flatten':
+            a = self.flat(cur)
+            b = self.flat(self.sq_last(self.act(self.same_shape_conv(cur))))
+            cur = self.add(k='cat', src=[a, b] if rng.random() < 0.5 else [b, a], dim=1)
+            cur = self.add(k='unsqueeze', src=cur, dim=2, form=rng.choice(['fn', 'method']))
+            cur = self.flat(cur)
+        else:
+            cur = self.sq_last(cur)
+            dim0, self.dim = self.dim, 1
+            cur = self.act(self.conv(cur, stride_ok=False, k=rng.choice([1, 2])))
+            self.dim = dim0
+            cur = self.flat(self.sq_last(cur))
+        return cur
+
     def head(self, cur, nout):
         rng = self.rng
         sp = self.sh(cur)[1:]
         r = rng.random()
-        if r < 0.22:
+        if rng.random() < self.o.get('p_nested', 0.3):
+            cur = self.nested(cur)
+            r = 2.0          # none of the plain heads below
+        if r >= 2.0:
+            pass
+        elif r < 0.22:
             cur = self.flat(self.add(k='gap%dd' % self.dim, src=cur))
             self.prod.append('head:gap-flatten')
         elif r < 0.45:
